@@ -505,10 +505,25 @@ func (s *Statement) ConvertAllAllocatedToPipelined(jobID common_info.PodGroupID)
 	}
 
 	var newOperations []Operation
-	for _, op := range s.operations {
+	newIndices := map[int]int{}
+	for index, op := range s.operations {
 		if !(op.TaskInfo().Job == jobID && op.Name() == allocate) {
+			newIndices[index] = len(newOperations)
 			newOperations = append(newOperations, op)
 		}
+	}
+	// removing operations shifts the indices that undo operations refer to
+	for index, op := range newOperations {
+		undoOp, isUndo := op.(undoOperation)
+		if !isUndo {
+			continue
+		}
+		newIndex, found := newIndices[undoOp.operationIndex]
+		if !found {
+			newIndex = -1 // the undone operation itself was removed
+		}
+		undoOp.operationIndex = newIndex
+		newOperations[index] = undoOp
 	}
 	s.operations = newOperations
 
